@@ -591,7 +591,8 @@ class StorageBackend:
         executor=None,
     ):
         """Read and format a chunk, possibly splitting it into smaller chunks."""
-        if executor is None:
+        if executor is None or rechunk:
+            # Rechunking on load needs the data itself, not a future
             chunk = self._read_and_format_chunk(**read_chunk_kwargs)
         else:
             chunk = executor.submit(self._read_and_format_chunk, **read_chunk_kwargs)
